@@ -323,6 +323,51 @@ class Ctx:
                 out.append(self.var_axiom[vid])
         return out
 
+    def relevant_back_subst(self, exprs, sub):
+        """like relevant_back, but every expression and every defining equation is first rewritten with the
+        substitution `sub` (list of (term, fresh variable)); definitions of substituted terms are therefore cut off"""
+        def vars_of(e, acc):
+            seen, st = set(), [e]
+            while st:
+                x = st.pop()
+                if x.get_id() in seen:
+                    continue
+                seen.add(x.get_id())
+                if z3.is_const(x) and x.decl().kind() == z3.Z3_OP_UNINTERPRETED:
+                    acc.add(x.get_id())
+                else:
+                    st.extend(x.children())
+            return acc
+        defby = {}
+        for i, (t, qr, ax) in enumerate(self.defs):
+            for v in qr:
+                defby[v.get_id()] = i
+        subvars = set(v.get_id() for _, v in sub)
+        V = set()
+        for e in exprs:
+            if isinstance(e, z3.ExprRef):
+                vars_of(z3.substitute(e, *sub), V)
+        out, used = [], set()
+        todo = list(V)
+        while todo:
+            v = todo.pop()
+            if v in subvars:
+                continue
+            i = defby.get(v)
+            if i is not None and i not in used:
+                used.add(i)
+                t, qr, ax = self.defs[i]
+                ax2 = z3.substitute(ax, *sub)
+                out.append(ax2)
+                for w in vars_of(ax2, set()):
+                    if w not in V:
+                        V.add(w)
+                        todo.append(w)
+        for vid in V:
+            if vid in self.var_axiom and vid not in subvars:
+                out.append(self.var_axiom[vid])
+        return out
+
     def mod(self, t, n):
         return self.split(t, n)[1]
 
